@@ -312,13 +312,16 @@ func c09Corpus() []*Plan {
 		FormGRPC: {"Unary", "ClientStream", "ServerStream", "Bidi"}, FormGRPCWeb: {"Unary", "ClientStream", "Bidi"},
 		FormConnectStream: {"ClientStream", "ServerStream", "Bidi"}, FormConnectUnary: {"Unary"},
 	}
-	type variant struct{ ccodec, scodec, ccomp string; scomps []string }
+	type variant struct {
+		ccodec, scodec, ccomp string
+		scomps                []string
+	}
 	variants := []variant{
-		{"proto", "proto", "", []string{}},               // reframe
-		{"json", "proto", "", []string{}},                // reencode
-		{"proto", "proto", "gzip", []string{"gzip"}},     // reframe, compressed
-		{"proto", "proto", "gzip", []string{}},           // decompress only
-		{"json", "alt", "deflate", []string{"deflate"}},  // reencode + recompress
+		{"proto", "proto", "", []string{}},              // reframe
+		{"json", "proto", "", []string{}},               // reencode
+		{"proto", "proto", "gzip", []string{"gzip"}},    // reframe, compressed
+		{"proto", "proto", "gzip", []string{}},          // decompress only
+		{"json", "alt", "deflate", []string{"deflate"}}, // reencode + recompress
 	}
 	for _, form := range forms {
 		for _, method := range methods[form] {
@@ -622,9 +625,9 @@ func init() {
 			}
 			return all
 		},
-		Oracle:      c09Oracle,
-		NoShrink:    true,
-		Components:  stdComponents,
+		Oracle:     c09Oracle,
+		NoShrink:   true,
+		Components: stdComponents,
 		Assumptions: []string{"the scripted backend is conforming: it fails the RPC in its own protocol when its read fails or its decoder rejects the bytes",
 			"faults whose result is still a well-formed stream (cut on a frame boundary of a client stream, a flag value that is legal but changes meaning, a bit flip in an unchecked gzip header field) are not required to fail"},
 	})
